@@ -26,6 +26,8 @@ type Profile struct {
 	MaxIters   int
 }
 
+var extraProfiles func(add func(Profile))
+
 func Profiles() map[string]Profile {
 	m := map[string]Profile{}
 	add := func(p Profile) {
@@ -33,6 +35,9 @@ func Profiles() map[string]Profile {
 			p.LatestCls = "latest"
 		}
 		m[p.Name] = p
+	}
+	if extraProfiles != nil {
+		extraProfiles(add)
 	}
 	add(Profile{Name: "C01", W: map[string]int{"write": 50, "ingest": 8, "excise": 3, "ingestexcise": 3, "maint": 12, "get": 10, "scan": 6, "batchw": 5},
 		ScanLatest: true, GetLatest: 3, RangeKeys: 1})
@@ -82,6 +87,7 @@ type Gen struct {
 	batchOps   map[int][]Ev
 	iters      []*genIter
 	lastValid  bool
+	noMerge    bool // no MERGE / SINGLEDEL (collapsing ScanInternal does not support them)
 	snapTaint  map[int]bool
 }
 
@@ -148,6 +154,9 @@ func (g *Gen) writeOp(allowSD bool, touched map[int]bool) Ev {
 			touched[k] = true
 			return Ev{"o": "del", "k": k}
 		case x < 70:
+			if g.noMerge {
+				continue
+			}
 			k := g.key()
 			touched[k] = true
 			return Ev{"o": "merge", "k": k, "v": g.v()}
@@ -158,7 +167,7 @@ func (g *Gen) writeOp(allowSD bool, touched map[int]bool) Ev {
 			}
 			return Ev{"o": "delr", "a": a, "b": b}
 		case x < 88:
-			if !allowSD {
+			if !allowSD || g.noMerge {
 				continue
 			}
 			// SingleDelete only where the contract holds: exactly <=1 SET, no MERGE since the last delete
@@ -264,7 +273,11 @@ func (g *Gen) ingestTables() (tables [][]Ev, flat []Ev) {
 			case 0:
 				pts = append(pts, Ev{"o": "del", "k": k})
 			case 1:
-				pts = append(pts, Ev{"o": "merge", "k": k, "v": g.v()})
+				if g.noMerge {
+					pts = append(pts, Ev{"o": "set", "k": k, "v": g.v()})
+				} else {
+					pts = append(pts, Ev{"o": "merge", "k": k, "v": g.v()})
+				}
 			default:
 				pts = append(pts, Ev{"o": "set", "k": k, "v": g.v()})
 			}
@@ -848,5 +861,9 @@ func (g *Gen) Step() {
 		g.actLeak()
 	case "batchw":
 		g.actBatchWrite()
+	case "checkpoint":
+		g.actCheckpoint()
+	case "scanint":
+		g.actScanInt()
 	}
 }
